@@ -85,6 +85,38 @@ type TCP struct {
 	FailHandler func(remote string) bool
 	WrapMetrics      func(conn transport.StreamConn, rec *ConnRec) service.TCPConnMetrics
 	shared           service.StreamListener
+	// Svc: connections are handled by a service built with NewShadowsocksService, the way the
+	// server builds its services (UseService); the metrics it asks for are the records
+	Svc     service.Service
+	svcRecs map[string]*ConnRec
+}
+
+// UseService makes the world handle its connections through service.NewShadowsocksService.
+func (w *TCP) UseService() {
+	w.svcRecs = map[string]*ConnRec{}
+	opts := []service.Option{service.WithCiphers(w.List), service.WithMetrics(&svcMetrics{w})}
+	if w.Cache != nil {
+		opts = append(opts, service.WithReplayCache(w.Cache))
+	}
+	svc, err := service.NewShadowsocksService(opts...)
+	if err != nil {
+		panic(err)
+	}
+	w.Svc = svc
+}
+
+type svcMetrics struct{ w *TCP }
+
+func (m *svcMetrics) AddOpenTCPConnection(conn net.Conn) service.TCPConnMetrics {
+	if rec := m.w.svcRecs[conn.RemoteAddr().String()]; rec != nil {
+		return rec
+	}
+	return &service.NoOpTCPConnMetrics{}
+}
+func (m *svcMetrics) AddCipherSearch(proto string, accessKeyFound bool, timeToCipher time.Duration) {
+}
+func (m *svcMetrics) AddUDPNatEntry(clientAddr net.Addr, accessKey string) service.UDPConnMetrics {
+	return &service.NoOpUDPConnMetrics{}
 }
 
 // NewTCP builds the handler with the real authenticator and the default (validating) dialer.
@@ -129,6 +161,11 @@ func (w *TCP) Start() {
 			}()
 			if w.FailHandler != nil && w.FailHandler(rec.Remote) {
 				panic("injected failure while handling a connection")
+			}
+			if w.Svc != nil {
+				w.svcRecs[rec.Remote] = rec
+				w.Svc.HandleStream(ctx, conn)
+				return
 			}
 			var m service.TCPConnMetrics = rec
 			if w.WrapMetrics != nil {
